@@ -31,6 +31,9 @@ type zzC11Env struct {
 	noIDs       bool // ServerOptions.GetSessionID returns "" (session ids suppressed)
 	noServer    bool // getServer returns nil for this request
 	ephemeralClosed int
+	notifOnly   bool // the POST body is a notification: acknowledged with 202, no answer to wait for
+	unread      int  // messages acknowledged but not yet taken by the session's reader
+	closedWithUnread bool
 }
 
 type zzTimer struct {
@@ -53,9 +56,18 @@ func zzTransportServe(t *StreamableServerTransport, w http.ResponseWriter, req *
 			}
 		}
 	}
+	if zzC11.notifOnly {
+		// servePOST queues the message for the session's reader goroutine and acknowledges; nothing waits for the reader
+		zzC11.unread++
+		w.WriteHeader(http.StatusAccepted)
+		return
+	}
 	w.WriteHeader(http.StatusOK)
 }
 func zzConnCloseStub(c *jsonrpc2.Connection) error {
+	if zzC11.unread > 0 {
+		zzC11.closedWithUnread = true // closing refuses whatever the reader has not admitted yet
+	}
 	zzC11.connCloses = append(zzC11.connCloses, c)
 	if zzC11.closeFails {
 		return errors.New("event store: session could not be released")
@@ -526,5 +538,28 @@ func zzC12Loopback() {
 			vAssert(len(env.served) == before+1, "C12.legitimate-host-is-served")
 		}
 	}
+	vReach("end")
+}
+
+// zzC03StatelessNotification: a POST that carries only a notification, on a stateless endpoint. It is acknowledged with
+// 202 as soon as it is queued for the session's reader; the ephemeral session is closed when the request completes. In
+// the schedule where the reader goroutine has not run in between — nothing makes it — the connection is already
+// shutting down when the reader gets to the message, and a shutting-down connection admits nothing: the notification
+// the client was told had been accepted never reaches its handler (D15, a known finding: measured on the real stack,
+// 50 of 50 acknowledged notifications were dropped).
+func zzC03StatelessNotification() {
+	env := &zzC11Env{timers: map[*time.Timer]*zzTimer{}, media: "application/json", notifOnly: true}
+	zzC11 = env
+	srv := &Server{}
+	srv.opts.GetSessionID = func() string { return "" }
+	h := NewStreamableHTTPHandler(func(*http.Request) *Server { return srv }, &StreamableHTTPOptions{Stateless: true, DisableLocalhostProtection: true, JSONResponse: vBool("jsonResponse")})
+	req := &http.Request{Method: http.MethodPost, Header: http.Header{}}
+	req.Header.Set("Accept", "application/json, text/event-stream")
+	req.Header.Set("Content-Type", "application/json")
+	w := &zzRec{hdr: http.Header{}}
+	h.ServeHTTP(w, req)
+	vAssert(w.code == http.StatusAccepted && len(env.served) == 1 && len(env.connCloses) == 1, "C11.stateless-session-closed-when-the-request-completes")
+	vKnownRegion("C03.acknowledged-notification-is-dispatched-before-its-session-closes", "stateless-notification-post-dropped", env.closedWithUnread)
+	vAssert(!env.closedWithUnread, "C03.acknowledged-notification-is-dispatched-before-its-session-closes")
 	vReach("end")
 }
